@@ -101,8 +101,8 @@ def run(ctx):
         cmps = b.calls(r"core::cmp::(Ord|PartialOrd)(<[^>]*>)?(>)?::(cmp|partial_cmp|lt|le|gt|ge)$")
         pairs = []
         for bb, t in cmps:
-            o0 = {y.rsplit("::", 1)[1] for y in origin_names(b, t["args"][0])}
-            o1 = {y.rsplit("::", 1)[1] for y in origin_names(b, t["args"][1])}
+            o0 = {y.rsplit("::", 1)[-1] for y in origin_names(b, t["args"][0])}
+            o1 = {y.rsplit("::", 1)[-1] for y in origin_names(b, t["args"][1])}
             pairs.append((sorted(o0), sorted(o1)))
         ok = len(pairs) >= 2 and all(p_[0] == p_[1] and p_[0] in (["effective_min"], ["effective_max"]) for p_ in pairs) and \
             {tuple(p_[0]) for p_ in pairs} == {("effective_min",), ("effective_max",)}
